@@ -37,29 +37,29 @@ PLANS = {
                       drv=["--no-machines", "--scenarios", 3000, "--max-packets", 200])),
     "C15": dict(
         quick=dict(mc=[M(2, 1, 1, 1, 2, "block", 16, ["Inv_C15"], cont=False), M(1, 0, 1, 0, 2, "all", 12, ["Inv_C15"])],
-                   drv=["--scenarios", 250]),
+                   drv=["--scenarios", 200, "--directed", 2]),
         thorough=dict(mc=[M(2, 1, 1, 1, 2, "all", 18, ["Inv_C15"], cont=False), M(2, 0, 1, 1, 3, "block", 16, ["Inv_C15"])],
-                      drv=["--scenarios", 2500])),
+                      drv=["--scenarios", 2500, "--directed", 1])),
     "C16": dict(
         quick=dict(mc=[M(1, 1, 1, 0, 3, "block", 14, ["Inv_C16"]), M(2, 0, 1, 0, 2, "block", 14, ["Inv_C16"])],
-                   drv=["--scenarios", 250]),
+                   drv=["--scenarios", 200, "--directed", 2]),
         thorough=dict(mc=[M(1, 1, 2, 0, 3, "block", 14, ["Inv_C16"]), M(2, 1, 1, 1, 3, "block", 16, ["Inv_C16"])],
-                      drv=["--scenarios", 2500])),
+                      drv=["--scenarios", 2500, "--directed", 1])),
     "C17": dict(
         quick=dict(mc=[M(1, 0, 1, 0, 3, "action", 14, ["Inv_C17"]), M(1, 1, 1, 1, 2, "action", 14, ["Inv_C17"])],
-                   drv=["--scenarios", 250]),
+                   drv=["--scenarios", 200, "--directed", 2]),
         thorough=dict(mc=[M(1, 0, 2, 0, 3, "action", 14, ["Inv_C17"]), M(2, 1, 1, 1, 3, "action", 16, ["Inv_C17"])],
-                      drv=["--scenarios", 2500])),
+                      drv=["--scenarios", 2500, "--directed", 1])),
     "C18": dict(
         quick=dict(mc=[M(1, 0, 1, 0, 4, "timer", 16, ["Inv_C18"]), M(1, 1, 1, 1, 3, "timer", 14, ["Inv_C18"])],
-                   drv=["--scenarios", 250]),
+                   drv=["--scenarios", 200, "--directed", 2]),
         thorough=dict(mc=[M(1, 0, 2, 0, 4, "timer", 16, ["Inv_C18"]), M(2, 1, 1, 1, 4, "timer", 18, ["Inv_C18"])],
-                      drv=["--scenarios", 2500])),
+                      drv=["--scenarios", 2500, "--directed", 1])),
     "C19": dict(
         quick=dict(mc=[M(1, 1, 1, 1, 2, "all", 12, ["Inv_C19"]), M(2, 1, 1, 0, 2, "block", 12, ["Inv_C19"])],
-                   drv=["--scenarios", 250]),
+                   drv=["--scenarios", 200, "--directed", 2]),
         thorough=dict(mc=[M(2, 1, 1, 1, 2, "all", 18, ["Inv_C19", "Inv_C15", "Inv_C16", "Inv_C17", "Inv_C18"])],
-                      drv=["--scenarios", 2500])),
+                      drv=["--scenarios", 2500, "--directed", 1])),
 }
 
 NONTRIVIAL = {
